@@ -55,6 +55,15 @@ def gen_scenario(rng, tier):
     return L
 
 
+def gen_big_table(rng):
+    """a seek table larger than the reader's 128 KB refill buffer (12-byte entries: checksums on), read in pieces"""
+    nfr = rng.choice([33000, 45000]); maxf = rng.choice([2, 3]); size = nfr * maxf
+    L = ["ARCH 1 1 %d text %d %d 100000 100000" % (maxf, size, rng.randint(1, 9999)), "WALK", "REG"]
+    for mode in ("buff", "file"):
+        L.append("READ %s %s" % (mode, " ".join("%d:%d" % (rng.randint(size * 3 // 4, size - 50), rng.choice([1, 7, 40])) for _ in range(6))))
+    return L
+
+
 def run(tier):
     ck = core.Check(PID, tier, "model_checking")
     od = ck.outdir
@@ -65,6 +74,7 @@ def run(tier):
             ck.warn("Seekable.tla: %s violated (design model)" % r.invariant_violated)
     exe = build()
     scen = [gen_scenario(ck.rng, tier) for _ in range(60 if tier == "quick" else 800)]
+    scen += [gen_big_table(ck.rng) for _ in range(1 if tier == "quick" else 6)]
     per = 10
     for bi in range(0, len(scen), per):
         batch = scen[bi:bi + per]
